@@ -270,6 +270,9 @@ class C16(ModelCheck):
         case = json.loads(json.dumps(case))
         trace, errs = l3.run_case(execute, case)
         bad = [s for s in trace if s["exp"] != s["obs"] or s["world_exp"] != s["world_obs"]]
+        if not bad and errs:
+            # every snippet's exception is returned to the harness; nothing may be logged
+            bad = [{"i": len(trace) - 1, "op": "-", "exp": "no error logged", "obs": errs[0][-200:], "world_exp": None, "world_obs": None}]
         kinds = {o["op"] for o in case["ops"]}
         preserve = any(o["op"] in ("assign", "assign_attr", "setattr") or (o["op"] == "set" and o["new_attributes"] is None) for o in case["ops"])
         replace = any(o["op"] == "set" and o["new_attributes"] is not None for o in case["ops"])
